@@ -3,7 +3,7 @@ Driver operations for C02 (Distributed Shampoo update = documented blocked-Shamp
 executed on the implementation's own state, one parameter and one `update` call at a time (factored comparison).
 
 * `step` (binary64): the statistics half (`specStats` and `lowStats`) and the update half (`specPrecondGrad` /
-  `lowPrecondGrad`, `specTransform` / `lowTransform`) of one call, from the stored statistics, the preconditioners
+  `lowPrecondGradC` — stored preconditioners, dense or packed —, `specUpdate` on the denoted matrices / `lowUpdateC`) of one call, from the stored statistics, the preconditioners
   the update is computed with, the first-order state, the gradient and the parameter. Tensors cross as float32 bit
   patterns (widened exactly), configuration scalars as binary64 bit patterns. Policy TOL.
 * `stats` (exact rationals with a "representable in float32" flag on every intermediate): the statistics half
@@ -99,6 +99,27 @@ def getMats {α : Type} (zero : α) (datum : Json → R α) (j : Json) (k : Stri
     if d * d ≠ l.length then throw s!"{k}: a matrix is not square" else
     pure (mxOfArray zero d l.toArray)
 
+/-- a rectangular row-major `d × c` matrix as an index function -/
+def mxOfArrayRect {α : Type} (zero : α) (d c : Nat) (a : Array α) : Mx α := fun i j =>
+  if i < d ∧ j < c then a.getD (i * c + j) zero else zero
+
+/-- stored preconditioners: a flat list is a square matrix; `{"rows": d, "cols": r+2, "data": [...]}` a packed one -/
+def getStored (j : Json) (k : String) : R (List (Stored Float)) := do
+  let ms ← asList (← field j k)
+  ms.mapM fun m => do
+    match m with
+    | .arr _ => do
+        let l ← asListOf f32Datum m
+        let d := Nat.sqrt l.length
+        if d * d ≠ l.length then throw s!"{k}: a matrix is not square" else
+        pure (Stored.dense (mxOfArray 0 d l.toArray))
+    | _ => do
+        let d ← getNat m "rows"
+        let c ← getNat m "cols"
+        let l ← asListOf f32Datum (← field m "data")
+        if d * c ≠ l.length ∨ c < 3 ∨ d ≤ c then throw s!"{k}: bad packed matrix" else
+        pure (Stored.packed d (c - 2) (mxOfArrayRect 0 d c l.toArray))
+
 /-- dimension of slot `s`: the extent of the block along its preconditioned axis -/
 def slotDim {α : Type} (blocks : List (Tensor α)) (pdims : List Nat) (s : Nat) : Nat :=
   match blocks[s / pdims.length]? with
@@ -178,8 +199,10 @@ def stepOp (j : Json) : R Json := do
   let g ← asListOf f32Datum (← field j "g")
   let param ← asListOf f32Datum (← field j "param")
   let stats ← getMats (0 : Float) f32Datum j "stats"
-  let before ← getMats (0 : Float) f32Datum j "preconds_before"
-  let after ← getMats (0 : Float) f32Datum j "preconds_after"
+  let beforeS ← getStored j "preconds_before"
+  let afterS ← getStored j "preconds_after"
+  let before := beforeS.map denoteStored
+  let after := afterS.map denoteStored
   let sharded ← getBool j "sharded"
   let st : PState Float := {
     diag := ← asListOf f32Datum (← field j "diag")
@@ -192,9 +215,9 @@ def stepOp (j : Json) : R Json := do
     (specStats G w1 w2 si step stats g, lowStats G w1 w2 si step stats g)
   let used := usedPreconds sharded before after
   let pgS : Option (List Float) := if skip then some g else specPrecondGrad G used g
-  let pgL : Option (List Float) := if skip then some g else lowPrecondGrad G used g
+  let pgL : Option (List Float) := if skip then some g else lowPrecondGradC G (usedPreconds sharded beforeS afterS) g
   let oS := specUpdate Float.sqrt Float.ofNat sharded G h step skip g param st before after
-  let oL := lowUpdate Float.sqrt Float.ofNat sharded G h step skip g param st before after
+  let oL := lowUpdateC Float.sqrt Float.ofNat sharded G h step skip g param st beforeS afterS
   let vec := fun (l : List Float) => listToJson floatToJson l
   let outJ := fun (o : Option (TOut Float)) => match o with
     | some o => obj [("upd", vec o.upd), ("diag", vec o.st.diag), ("dmom", vec o.st.dmom), ("mom", vec o.st.mom),
